@@ -135,13 +135,15 @@ def call_function(f, args, maxsteps=2000, env=None):
     raise Unknown("%s: no return reached" % f.name)
 
 
-def run_straight(f, env, calls, stop, maxsteps=400, returns=False):
+def run_straight(f, env, calls, stop, maxsteps=400, returns=False, start=None, stop_blocks=()):
     """Interpret function f from its entry, following branches by evaluating
     their conditions, executing integer assignments into env, until `stop(node)`
     returns True for a call node (returns that node) or the exit is reached."""
-    bid = f.entry
+    bid = f.entry if start is None else start
     steps = 0
     while bid is not None and bid != f.exit:
+        if steps and bid in stop_blocks:
+            return ("block", bid)
         steps += 1
         if steps > maxsteps:
             raise Unknown("too many steps in " + f.name)
